@@ -989,82 +989,46 @@ impl<'a> CompilerState<'a> {
                 }
             })
             .map_infix(|lhs, op, rhs| {
+                let l = lhs?;
+                let r = rhs?;
+                let start = op.as_span().start();
+                // Evaluate in 64 bits: a result that does not fit 32 bits is an error
+                let fit = |v: i64| -> Result<i32, Error> {
+                    i32::try_from(v).map_err(|_| self.syntax_error("Constant overflow", start))
+                };
+                let (lw, rw) = (l as i64, r as i64);
                 let res = match op.as_rule() {
-                    Rule::mul => lhs.unwrap() * rhs.unwrap(),
+                    Rule::mul => fit(lw * rw)?,
                     Rule::div => {
-                        let d = rhs.unwrap();
-                        if d == 0 {
-                            let start = op.as_span().start();
+                        if r == 0 {
                             return Err(self.syntax_error("Division by zero", start));
                         }
-                        lhs.unwrap() / d
+                        fit(lw / rw)?
                     }
-                    Rule::add => lhs.unwrap() + rhs.unwrap(),
-                    Rule::sub => lhs.unwrap() - rhs.unwrap(),
-                    Rule::and => lhs.unwrap() & rhs.unwrap(),
-                    Rule::or => lhs.unwrap() | rhs.unwrap(),
-                    Rule::xor => lhs.unwrap() ^ rhs.unwrap(),
-                    Rule::brs => lhs.unwrap() >> rhs.unwrap(),
-                    Rule::bls => lhs.unwrap() << rhs.unwrap(),
-                    Rule::land => {
-                        if lhs.unwrap() != 0 && rhs.unwrap() != 0 {
-                            1
+                    Rule::add => fit(lw + rw)?,
+                    Rule::sub => fit(lw - rw)?,
+                    Rule::and => l & r,
+                    Rule::or => l | r,
+                    Rule::xor => l ^ r,
+                    Rule::brs | Rule::bls => {
+                        if !(0..32).contains(&r) {
+                            return Err(self.syntax_error("Shift count out of range", start));
+                        }
+                        if op.as_rule() == Rule::brs {
+                            l >> r
                         } else {
-                            0
+                            fit(lw << r)?
                         }
                     }
-                    Rule::lor => {
-                        if lhs.unwrap() != 0 || rhs.unwrap() != 0 {
-                            1
-                        } else {
-                            0
-                        }
-                    }
-                    Rule::gt => {
-                        if lhs.unwrap() > rhs.unwrap() {
-                            1
-                        } else {
-                            0
-                        }
-                    }
-                    Rule::gte => {
-                        if lhs.unwrap() >= rhs.unwrap() {
-                            1
-                        } else {
-                            0
-                        }
-                    }
-                    Rule::lt => {
-                        if lhs.unwrap() < rhs.unwrap() {
-                            1
-                        } else {
-                            0
-                        }
-                    }
-                    Rule::lte => {
-                        if lhs.unwrap() <= rhs.unwrap() {
-                            1
-                        } else {
-                            0
-                        }
-                    }
-                    Rule::eq => {
-                        if lhs.unwrap() == rhs.unwrap() {
-                            1
-                        } else {
-                            0
-                        }
-                    }
-                    Rule::neq => {
-                        if lhs.unwrap() != rhs.unwrap() {
-                            1
-                        } else {
-                            0
-                        }
-                    }
+                    Rule::land => (l != 0 && r != 0) as i32,
+                    Rule::lor => (l != 0 || r != 0) as i32,
+                    Rule::gt => (l > r) as i32,
+                    Rule::gte => (l >= r) as i32,
+                    Rule::lt => (l < r) as i32,
+                    Rule::lte => (l <= r) as i32,
+                    Rule::eq => (l == r) as i32,
+                    Rule::neq => (l != r) as i32,
                     Rule::ternary_cond1 => {
-                        let l = lhs.unwrap();
-                        let r = rhs.unwrap();
                         debug!("t1: left: {} right: {}", l, r);
                         if l != 0 {
                             r
@@ -1073,8 +1037,6 @@ impl<'a> CompilerState<'a> {
                         }
                     }
                     Rule::ternary_cond2 => {
-                        let l = lhs.unwrap();
-                        let r = rhs.unwrap();
                         debug!("t2: left: {} right: {}", l, r);
                         if l == 0x7eaddead {
                             r
@@ -1087,7 +1049,11 @@ impl<'a> CompilerState<'a> {
                 Ok(res)
             })
             .map_prefix(|op, rhs| match op.as_rule() {
-                Rule::neg => Ok(-rhs?),
+                Rule::neg => {
+                    let start = op.as_span().start();
+                    rhs?.checked_neg()
+                        .ok_or_else(|| self.syntax_error("Constant overflow", start))
+                }
                 Rule::not => Ok(if rhs? == 0 { 1 } else { 0 }),
                 Rule::bnot => Ok(!rhs?),
                 _ => unreachable!(),
